@@ -941,12 +941,103 @@ def header_construction(facts, orc):
     return [t.rr]
 
 
+def partition_floor(facts, orc):
+    """AGREE/partition-length: RFC 9639 section 9.2.7 - the block size is divisible by the number of partitions and
+    (block size >> partition order) is *larger* than the predictor order (the first partition holds at least one residual).
+    The encoder has one chooser of the partition order; its extracted summary is evaluated on a grid."""
+    t = R("AGREE/partition-length", "the partition order chosen for a residual leaves (block size >> order) > warm-up length "
+          "and divides the block size, for every warm-up length the predictors can have")
+    from .lib_expr import ExprCtx
+    fin, fb_ = ret_of(facts, "rice::finest_partition_order")
+    callers = []
+    for b in facts.body_list:
+        for bi, tt in b.calls():
+            if ((tt.get("fn") or {}).get("def") or "").endswith("rice::finest_partition_order"):
+                callers.append((b, bi, tt))
+    maxw = max([facts.const_value(c) or 0 for c in ("constant::qlpc::MAX_ORDER", "constant::fixed::MAX_LPC_ORDER")] + [0])
+    t.row(maxw >= 1, "constant", "max-order", "maximum predictor orders not found among the crate's constants")
+    # blocks shorter than this are never predicted (no residual is built for them)
+    lo = facts.const_value("constant::MIN_BLOCK_SIZE_FOR_PREDICTION")
+    guard = False
+    for b in facts.find_bodies(r"^coding::encode_subframe$"):
+        for _bi, _si, st in b.iter_stmts():
+            if st["k"] == "assign" and st["rv"]["k"] == "bin" and st["rv"]["op"] in ("Lt", "Ge") and \
+                    any((o.get("cdef") or "").endswith("MIN_BLOCK_SIZE_FOR_PREDICTION") for o in (st["rv"]["a"], st["rv"]["b"])
+                        if o.get("k") == "const"):
+                guard = True
+    if not (isinstance(lo, int) and guard):
+        lo = 1
+    def ev(e, env):
+        if e[0] == "c":
+            return e[1] if isinstance(e[1], int) else None
+        if e[0] in ("p", "l"):
+            return env.get(e[0:2])
+        if e[0] == "call" and re.search(r"(^|::)(min|max)(::<\w+>)?$", e[1]) and len(e[2]) == 2:
+            vs = [ev(x, env) for x in e[2]]
+            if any(v is None for v in vs):
+                return None
+            return max(vs) if "max" in e[1].rsplit("::", 2)[-1] or e[1].endswith("max") or "::max::" in e[1] else min(vs)
+        if e[0] == "bin" and e[1] in ("Add", "Sub", "Mul"):
+            a, b2 = ev(e[2], env), ev(e[3], env)
+            if a is None or b2 is None:
+                return None
+            return {"Add": a + b2, "Sub": a - b2, "Mul": a * b2}[e[1]]
+        if e[0] == "cast":
+            return ev(e[2], env)
+        return None
+    sizes = set([64, 96, 128, 192, 256, 384, 512, 576, 1024, 1152, 2048, 2304, 4096, 4608, 8192, 16384, 32768, 65535, 65534,
+                 65280, 49152, 40960])
+    for w in range(1, maxw + 1):
+        for k in range(0, 16):
+            sizes.add(w << k)
+            sizes.add((w + 1) << k)
+    sizes = sorted(x for x in sizes if lo <= x <= 65535)
+    for (b, bi, tt) in callers:
+        ex = ExprCtx(b)
+        e2 = ex.expr(tt["args"][1])
+        e1 = ex.expr(tt["args"][0])
+        # the warm-up length is the parameter the second argument depends on; the size argument must be the signal length
+        params = sorted(set(x[0:2] for x in E.walk_expr(e2) if isinstance(x, tuple) and x and x[0] in ("p", "l")))
+        ok_shape = len(params) == 1 and e1[0] == "len"
+        t.row(ok_shape, b.id, "chooser-arguments", "finest_partition_order is called with (%s, %s): expected (length of the "
+              "signal, a bound depending on the warm-up length only) - undecided" % (E.show(e1)[:60], E.show(e2)[:80]),
+              {"size": E.show(e1)[:60], "bound": E.show(e2)[:80]}, b.loc(bi, "term"))
+        if not ok_shape:
+            continue
+        bad = None
+        n = 0
+        for w in range(0, maxw + 1):
+            m = ev(e2, {params[0]: w})
+            if not isinstance(m, int) or m < 1:
+                bad = (w, None, None, m)
+                break
+            for size in sizes:
+                if size < w:
+                    continue
+                o = E.evalv(fin, {1: size, 2: m}, facts)
+                n += 1
+                if not isinstance(o, int) or o < 0 or o > 15 or size % (1 << o) != 0 or not ((size >> o) > w or (w == 0 and (size >> o) >= 1)):
+                    bad = (w, size, o, m)
+                    break
+            if bad:
+                break
+        t.row(bad is None, b.id, "partition-longer-than-warm-up", "with warm-up length %s and block size %s the chooser is asked "
+              "for partitions of at least %s samples and picks order %s: (block size >> order) = %s is not larger than the "
+              "predictor order (or does not divide the block), so the first partition would hold no residual - RFC 9639 "
+              "section 9.2.7 forbids that stream" % (bad[0], bad[1], bad[3], bad[2],
+                                                   (bad[1] >> bad[2]) if bad[1] is not None and isinstance(bad[2], int) and 0 <= bad[2] < 64 else "?")
+              if bad else "", {"grid_points": n, "warm_up_lengths": "0..=%d" % maxw, "block_sizes": len(sizes),
+                               "shortest_predicted_block": lo}, b.loc(bi, "term"))
+    t.rr.require_floor(3, "partition-length rows")
+    return [t.rr]
+
+
 def run(facts, tier, ctx):
     orc = oracle()
     out = []
     for fn in (table_block_size, table_sample_rate, table_sample_size, table_channels, table_subframe_types,
                layout_streaminfo, layout_metadata_and_stream, layout_frame_header, order_frame, layout_lpc_residual,
-               crc_generators, header_construction, predictor_order):
+               crc_generators, header_construction, predictor_order, partition_floor):
         try:
             out += fn(facts, orc)
         except E.Undecided as e:
